@@ -19,9 +19,7 @@ def one(d):
     t = tempfile.mkdtemp(prefix="verif-ben-")
     alarms = {}
     try:
-        for x in ("src", "Cargo.toml", "Cargo.lock"):
-            s = os.path.join("/repo", x)
-            (shutil.copytree if os.path.isdir(s) else shutil.copy)(s, os.path.join(t, x))
+        subprocess.run(["rsync", "-a", "--exclude", "target", "--exclude", ".git", "/repo/", t + "/"], check=True)
         r = subprocess.run(["patch", "-s", "-p1", "-d", t, "-i", os.path.join(d, "patch.diff")], capture_output=True, text=True)
         if r.returncode != 0:
             return name, {"PATCH": ["does not apply"]}
